@@ -54,11 +54,11 @@ ASSUMPTIONS = [
 ]
 EXHAUSTIVE = True
 EXHAUSTIVE_NOTE = {
-    "quick": "all 6560 one-module hierarchies of exactly 5 classes (<=3 ordered distinct bases among earlier classes; contains every hierarchy of <5 classes as a prefix), "
-    "every class judged, inconsistent base orders included; all 4096 three-class graphs with bases among all classes (cycles). Member placement is one seeded sample per hierarchy; "
-    "the multi-module search is sampled, not exhaustive",
-    "thorough": "all 564160 one-module hierarchies of exactly 6 classes (same alphabet), every class judged; all 4096 three-class cyclic graphs; all 16^3*... see quick. "
-    "Member placement is one seeded sample per hierarchy; the multi-module search is sampled, not exhaustive",
+    "quick": "all 6560 one-module hierarchies of exactly 5 classes (<=3 ordered distinct bases among earlier classes; every hierarchy of fewer classes is a prefix), "
+    "every class judged, base orders CPython rejects included; all 4096 three-class graphs with bases among all three classes (self loops, cycles, forward references). "
+    "Member placement: two seeded samples per graph, not exhaustive; the multi-module search is sampled, not exhaustive",
+    "thorough": "all 564160 one-module hierarchies of exactly 6 classes (same alphabet), every class judged, base orders CPython rejects included; all 4096 three-class "
+    "graphs with bases among all three classes. Member placement: one (hierarchies) / two (cyclic graphs) seeded samples per graph, not exhaustive; the multi-module search is sampled, not exhaustive",
 }
 BUDGET_S = {"quick": 100.0, "thorough": 1500.0}
 SHRINK_MAX_EXAMPLES = 6000
@@ -133,7 +133,8 @@ def _import_pkg(case, root: Path) -> list[list[str]]:
             delattr(builtins, k)
         sys.path.remove(str(root))
         for name in set(sys.modules) - before:
-            del sys.modules[name]
+            if name == H.PKG or name.startswith(H.PKG + "."):
+                del sys.modules[name]
         sys.modules.pop(H.NOTLOADED, None)
         sys.path_importer_cache.pop(str(root), None)
         sys.path_importer_cache.pop(str(root / H.PKG), None)
@@ -157,6 +158,9 @@ def judge_class(case, i: int, exp: dict, g, where: str) -> list[Fail]:
         # loading the class is C01/C05 territory, but without it nothing can be judged
         return [Fail("mro", "class-not-loaded", f"{shape}: {path} is not a class member of the loaded tree ({g!r})\n{where}")]
     own = {n for n, k in zip(H.NAMES, case["members"][i]) if k}
+    if not own <= set(g.members):
+        # extraction of plain class-body definitions is C01 territory, but without them nothing can be judged
+        return [Fail("mro", "declared-member-not-loaded", f"{shape}: {path} declares {sorted(own)}, loaded members are {sorted(g.members)}\n{where}")]
 
     # ---- clause: uncomputable hierarchies are reported as such
     if exp["status"] == "err":
@@ -262,9 +266,19 @@ def judge_class(case, i: int, exp: dict, g, where: str) -> list[Fail]:
 
 
 # ----------------------------------------------------------------------------- entry points
+_LAST: list = [None, None]  # (case object, its expectation): lets `describe` reuse the oracle result of the check
+
+
+def _expect_of(case):
+    if _LAST[0] is case:
+        return _LAST[1]
+    return H.oracle(case)
+
+
 def evaluate(case):
     """-> (fails, expectation)."""
     expect = H.oracle(case)
+    _LAST[0], _LAST[1] = case, expect
     kind = case["kind"]
     fails: list[Fail] = []
     if kind in ("one", "cyc"):
@@ -277,7 +291,7 @@ def evaluate(case):
         root = _write_pkg(files)
         try:
             real = None
-            importable = H.is_forward(case["bases"]) and all(e["status"] != "err" for e in H.oracle_with_externals(case))
+            importable = _importable(case, expect)
             if importable:
                 try:
                     real = _import_pkg(case, root)
@@ -313,39 +327,38 @@ def describe(case, expect):
         forms = {f for i, bs in enumerate(case["bases"]) for k, b in enumerate(bs) if isinstance(b, int) for f in case["via"][i][k]}
         classes |= {f"pkg:form-{f}" for f in forms}
         classes.add(f"pkg:modules={max(case['mods']) + 1}")
-        classes.add("pkg:really-imported" if H.is_forward(case["bases"]) and all(e["status"] != "err" for e in H.oracle_with_externals(case)) else "pkg:abstract-oracle-only")
+        classes.add("pkg:really-imported" if _importable(case, expect) else "pkg:abstract-oracle-only")
         classes.add(f"pkg:resolve_aliases={bool(case['resolve'])}")
     nontrivial = "multi-base" in feats
     return nontrivial, sorted(classes)
 
 
-def _members_for(ctx, space: str, index: int, n: int):
-    return H.members_from_bits(derive_seed(ctx.base_seed, 0, f"c07:{space}:{index}") , n)
+def _importable(case, expect) -> bool:
+    """CPython can import the package iff every edge points backwards and every class statement succeeds."""
+    return H.is_forward(case["bases"]) and all(e["built"] for e in expect)
 
 
-def _enumerate(ctx, kind: str, space) -> None:
+def _enumerate(ctx, kind: str, space, placements: int) -> None:
+    """Every graph of the space (index-sharded), each with `placements` seed-derived member placements."""
+    from vp.common.harness import run_check
+
+    n_checked = 0
     for index in range(ctx.shard, space.size, ctx.nshards):
-        if index % 64 == ctx.shard % 64 and ctx.out_of_budget():
+        n_checked += 1
+        if n_checked % 64 == 0 and ctx.out_of_budget():
             break
         bases = space.decode(index)
-        # 64-bit seed-derived placement word gives 3 bits x 4 names x <=5 classes; extend for 6 classes
-        bits = derive_seed(ctx.base_seed, 0, f"c07:{kind}:{space.n}:{index}") | (derive_seed(ctx.base_seed, 1, f"c07:{kind}:{space.n}:{index}") << 64)
-        case = {"kind": kind, "bases": bases, "members": H.members_from_bits(bits, space.n)}
-        from vp.common.harness import run_check
-
-        holder = {}
-
-        def fn(c, holder=holder):
-            fails, holder["expect"] = evaluate(c)
-            return fails
-
-        fails = run_check(fn, case)
-        expect = holder.get("expect") or H.oracle(case)
-        nontrivial, classes = describe(case, expect)
-        sample = case if index % 1013 == 5 else None
-        ctx.case(1 if nontrivial else None, classes, sample, enumerated=True)
-        for f in fails:
-            ctx.fail(f, case)
+        for p in range(placements):
+            # 3 bits per (class, name): two 64-bit seed-derived words cover 6 classes x 4 names
+            tag = f"c07:{kind}:{space.n}:{index}:{p}"
+            bits = derive_seed(ctx.base_seed, 0, tag) | (derive_seed(ctx.base_seed, 1, tag) << 64)
+            case = {"kind": kind, "bases": bases, "members": H.members_from_bits(bits, space.n)}
+            fails = run_check(check_case, case)
+            nontrivial, classes = describe(case, _expect_of(case))
+            sample = case if (index * placements + p) % 1013 == 5 else None
+            ctx.case(1 if nontrivial else None, classes, sample, enumerated=True)
+            for f in fails:
+                ctx.fail(f, case)
 
 
 def strategy(ctx):
@@ -361,13 +374,13 @@ def run_shard(ctx) -> None:
     if ctx.shard == 0:
         ctx.res.extra["one_module_hierarchies"] = acyclic.size
         ctx.res.extra["cyclic_graphs"] = cyclic.size
-    _enumerate(ctx, "cyc", cyclic)
-    _enumerate(ctx, "one", acyclic)
+        ctx.res.extra["member_placements_per_graph"] = ctx.scale(2, 1)
+    _enumerate(ctx, "cyc", cyclic, ctx.scale(2, 2))
     strat, salt = strategy(ctx)
 
     def desc(case):
-        expect = H.oracle(case)
-        nontrivial, classes = describe(case, expect)
+        nontrivial, classes = describe(case, _expect_of(case))
         return (case if nontrivial else None), classes, case
 
-    ctx.run_hypothesis(strat, check_case, ctx.scale(400, 6000), describe=desc, salt=salt)
+    ctx.run_hypothesis(strat, check_case, ctx.scale(1500, 12000), describe=desc, salt=salt)
+    _enumerate(ctx, "one", acyclic, ctx.scale(2, 1))
